@@ -19,13 +19,16 @@ def run(tier, seed):
     q = tier == "quick"
     chk = vkit.Check("C07", tier, seed)
     exe = vkit.cc("signals_drv", ["signals_drv.c"], vclock=True)
-    A = ["add", "del", "raise", "loop", "script", "basefree"]
+    A = ["add", "del", "raise", "loop", "script", "basefree", "reinit"]
     S = ["del", "raise", "add"]
     combos = [("selfpipe", "dfl", "custom"), ("selfpipe", "ign", "dfl"), ("signalfd", "custom", "custom")]
     backends = ["epoll"] if q else ["epoll", "poll", "select"]
     hist = {}
     for (mech, pa, pb) in combos:
-        hs = gen(chk, "C07_exh_%s_%s" % (mech, pa), mech, pa, pb, 3, None, seed, ["add", "del", "raise", "loop", "basefree"], [])
+        hs = gen(chk, "C07_exh_%s_%s" % (mech, pa), mech, pa, pb, 3, None, seed, ["add", "del", "raise", "loop", "basefree", "reinit"], [])
+        # script-heavy: deletes (incl. self-delete inside an ncalls batch) and raises from inside callbacks
+        hs += gen(chk, "C07_scr_%s_%s" % (mech, pa), mech, pa, pb, 7 if q else 9, 60 if q else 500, seed + 1,
+                  ["add", "raise", "loop", "script"], ["del"])
         hs += gen(chk, "C07_rand_%s_%s" % (mech, pa), mech, pa, pb, 12 if q else 18, 60 if q else 600, seed, A, S)
         if len(hs) < 20:
             raise vkit.InfraError("too few histories")
@@ -47,7 +50,7 @@ def run(tier, seed):
                 chk.violation("%s/%s/%s backend=%s scenario %d step %d: %s" % (mech, pa, pb, be, i, k, msg),
                               {"cfg": dc, "h": hs[i], "fail_step": k}, key=None)
     chk.cov["op_histogram"] = hist
-    for need in ("add", "del", "raise", "loop", "basefree", "script:del", "script:raise", "cb"):
+    for need in ("add", "del", "raise", "loop", "basefree", "reinit", "script:del", "script:raise", "cb"):
         if not hist.get(need):
             raise vkit.InfraError("vacuous corpus: no " + need)
     chk.cov["rule"] = ("TLC enumerates all histories of 3 calls and simulates long ones over add/del/raise/loop/base-free on 4 signal events "
